@@ -17,7 +17,7 @@ ASSUMPTIONS = [
 ]
 
 MUTATORS = ("AddNs", "SetDefault", "Resolve", "NewBundle", "NewRecord", "Factory", "AddAttrs", "SetTime", "AddType",
-            "AddRecord", "Update", "AddBundleDoc", "GetRecord")
+            "AddRecord", "Update", "AddBundleDoc", "GetRecord", "ElemMethod")
 
 
 def target_doc(op):
@@ -26,7 +26,7 @@ def target_doc(op):
         return int(op[1][1])
     if k in ("NewBundle", "AddBundleDoc"):
         return int(op[1])
-    if k in ("AddAttrs", "SetTime", "AddType"):
+    if k in ("AddAttrs", "SetTime", "AddType", "ElemMethod"):
         return int(op[1][1][1])
     return None
 
